@@ -164,11 +164,11 @@ class C09(CheckBase):
         d = rng.choice(bp.DIALECT_NAMES)
         listo = rng.weighted([(3, 7), (2, 0), (3, rng.below(8))])
         kind = rng.weighted([(5, 'prefix'), (2, 'rfail'), (1, 'chunk'), (4, 'corrupt'), (3, 'seq')]
-                            + ([(3, 'prefix_all')] if tier == 'thorough' else [(1, 'prefix_all')]))
+                            + ([(3, 'prefix_all'), (2, 'corrupt_all')] if tier == 'thorough' else [(1, 'prefix_all'), (1, 'corrupt_all')]))
         delivery = rng.weighted([(4, 'file'), (2, 'stdin_file'), (2, 'stdin_pipe')])
         case = {'kind': kind, 'dialect': d, 'listo': listo, 'delivery': delivery}
-        if kind in ('prefix', 'rfail', 'chunk', 'corrupt', 'prefix_all'):
-            f = self.gen_file(rng, d, small=(kind == 'prefix_all' and tier == 'quick'))
+        if kind in ('prefix', 'rfail', 'chunk', 'corrupt', 'prefix_all', 'corrupt_all'):
+            f = self.gen_file(rng, d, small=(kind in ('prefix_all', 'corrupt_all') and tier == 'quick') or kind == 'corrupt_all' and rng.chance(0.7))
             case['file'] = f
             if kind == 'prefix':
                 case['mut'] = self.gen_cut(rng, f)
@@ -243,6 +243,33 @@ class C09(CheckBase):
                 mut = {'op': 'cut', 'line': li, 'off': k - line_start(f, li)}
                 atom = dict(case, kind='prefix', mut=mut)
                 self.judge_prefix(atom, ctx, out, fam, O, intact)
+            return out
+        if kind == 'corrupt_all':
+            # every byte of the file set to each of a few framing-relevant values; the validator decides which
+            # results are ill-formed in a listed way, only those are judged
+            be = fam == 'BE'
+            for li, (no, p) in enumerate(f['lines'] + [[None, b'']]):
+                width = (4 + len(p)) if no is not None else (2 if be else 3)
+                for off in range(width):
+                    for v in (0x00, 0x0D, 0xFF, 0x8D, 0x03, 0x04):
+                        if ctx.expired():
+                            return out
+                        mut = {'op': 'set', 'line': li, 'off': off, 'value': v, 'aim': 'every-byte'}
+                        f2 = dict(f, mut=mut)
+                        data = materialise(f2)
+                        if data == intact:
+                            continue
+                        ok, _, reason = bp.parse3(case['dialect'], data)
+                        if ok or reason not in JUDGED_REASONS:
+                            out.skip('corruption-not-judged')
+                            continue
+                        r = self.run_tool(ctx, out, case, [('p.bbc', data)], delivery)
+                        out.fault('corrupt:every-byte', True)
+                        out.sig('corrupt', fam, case['listo'], delivery, reason, r.exit_class(), r['log_hash'])
+                        out.probe('defect-class:' + reason)
+                        atom = dict(case, kind='corrupt', mut=mut)
+                        self.judge_reject(atom, out, r, {'kind': 'corrupt', 'family': fam, 'reason': reason},
+                                          'ill-formed program (%s, byte %d set to 0x%02X)' % (reason, abs_offset(f, mut), v))
             return out
         if kind == 'prefix' or kind == 'rfail':
             if not case.get('mut'):
